@@ -8,7 +8,7 @@ import vlib
 ASAN_ENV = dict(ASAN_OPTIONS=vlib.sanitizer_env("asan")["ASAN_OPTIONS"] + ":quarantine_size_mb=16")
 
 RULE = ("inputs = (a) generator states in blocks of 65536 consecutive states x the 12 bounds {1,2,3,5,7,32,33,1000,1024,65535,2^30,2^31-1} "
-        "(quick: every 16th block, offset by the seed = 2^27 states; thorough: all 2^31 states), plus random (state, bound) pairs with bounds "
+        "(quick: every 32nd block, offset by the seed = 2^26 states; thorough: all 2^31 states), plus random (state, bound) pairs with bounds "
         "near powers of two, near 2^31-1 and near MAX/k; each evaluation checks 0 <= result < bound and counts the draws (steps of the "
         "library's own evutil_weakrand_) up to the end state, bounded by 1024; (b) poll and select event bases with 1..64 pipes, random ready "
         "subsets, the base's generator state steered to raw values 0, MAX, last-accepted, first-rejected: every ready fd must get exactly one "
@@ -16,7 +16,7 @@ RULE = ("inputs = (a) generator states in blocks of 65536 consecutive states x t
         "unsuspended; (c) evutil_secure_rng_get_bytes for every length 0..4096 into exact-size heap blocks, 16 calls each, every position must "
         "change at least once; non-trivial = a state block / pair / dispatch with >=1 ready fd / group round / non-zero length; distinct = hash of it")
 REG = dict(category="exploration",
-           text="Runtime monitor: evutil_weakrand_range_ called for 2^27 (quick) / all 2^31 (thorough) generator states x 12 bounds plus random "
+           text="Runtime monitor: evutil_weakrand_range_ called for 2^26 (quick) / all 2^31 (thorough) generator states x 12 bounds plus random "
                 "(state, bound) pairs, each result range-checked and its draw count bounded; poll/select dispatch and rate-limit-group unsuspend run "
                 "end-to-end under ASan with the generator steered to extreme raw values (every ready fd / member must be served exactly once); "
                 "evutil_secure_rng_get_bytes checked for complete fill on every length 0..4096 in exact-size blocks.",
@@ -25,17 +25,18 @@ REG = dict(category="exploration",
            technique="range/termination assertions over enumerated generator states + end-to-end functional oracle under ASan")
 
 
-def steps(seed):
+def steps(seed, tier):
+    small = 6 if tier == "quick" else None   # few shards for small steps: process start-up dominates them
     return [
-        dict(flavor="plain", harness="h_util", args=["--mode", "wr", "--n1", 16, "--n2", seed % 16], cases=dict(quick=2048), tiers=("quick",)),
+        dict(flavor="plain", harness="h_util", args=["--mode", "wr", "--n1", 32, "--n2", seed % 32], cases=dict(quick=1024), tiers=("quick",)),
         dict(flavor="plain", harness="h_util", args=["--mode", "wr"], cases=dict(thorough=32768), tiers=("thorough",), timeout=6000),
         dict(flavor="asan", env=ASAN_ENV, harness="h_util", args=["--mode", "wr", "--n1", 2048, "--n2", (seed * 131) % 2048], cases=dict(quick=16, thorough=16), shards=4),
         dict(flavor="plain", harness="h_util", args=["--mode", "wrr"], cases=dict(quick=400, thorough=40000), seed_off=1),
         dict(flavor="asan", env=ASAN_ENV, harness="h_util", args=["--mode", "wrr"], cases=dict(quick=40, thorough=2000), seed_off=2, shards=4),
-        dict(flavor="asan", env=ASAN_ENV, harness="h_util", args=["--mode", "rng"], cases=dict(quick=4097, thorough=4097 * 4)),
-        dict(flavor="asan", env=ASAN_ENV, harness="h_util", args=["--mode", "poll"], cases=dict(quick=300, thorough=15000), seed_off=3),
-        dict(flavor="asan", env=ASAN_ENV, harness="h_util", args=["--mode", "select"], cases=dict(quick=300, thorough=15000), seed_off=4),
-        dict(flavor="asan", env=ASAN_ENV, harness="h_util", args=["--mode", "group"], cases=dict(quick=200, thorough=8000), seed_off=5),
+        dict(flavor="asan", env=ASAN_ENV, harness="h_util", args=["--mode", "rng"], cases=dict(quick=4097, thorough=4097 * 4), shards=small),
+        dict(flavor="asan", env=ASAN_ENV, harness="h_util", args=["--mode", "poll"], cases=dict(quick=200, thorough=15000), seed_off=3, shards=small),
+        dict(flavor="asan", env=ASAN_ENV, harness="h_util", args=["--mode", "select"], cases=dict(quick=200, thorough=15000), seed_off=4, shards=small),
+        dict(flavor="asan", env=ASAN_ENV, harness="h_util", args=["--mode", "group"], cases=dict(quick=200, thorough=8000), seed_off=5, shards=small),
     ]
 
 
@@ -45,7 +46,7 @@ def run(tier, seed):
         mx = max([int(k.rsplit("_", 1)[1]) for k in res.stats if k.startswith("wr_shards_whose_max_draws_was_")] or [0])
         res.extra["enumerated_subspace"] = "generator states enumerated (x12 bounds): %d (2^31 = 2147483648; asan+plain blocks may overlap)" % n
         res.extra["max_draws_observed"] = mx
-    return generic.run_spec("C46", tier, seed, steps(seed), RULE,
+    return generic.run_spec("C46", tier, seed, steps(seed, tier), RULE,
                             required=["wr_states", "wr_evaluations_with_redraw", "wr_result_lowest", "wr_result_highest", "wr_random_tops",
                                       "rng_calls", "rng_zero_length", "rng_positions_checked",
                                       "e2e_poll_dispatches", "e2e_select_dispatches", "e2e_choices", "e2e_choices_with_redraw",
